@@ -228,6 +228,8 @@ spiftool_safe_strncat(spif_charptr_t dest, const spif_charptr_t src, spif_int32_
 
     len = strnlen((char *) dest, size);
     if (len >= size) {
+        /* No NUL within size bytes: terminate (like safe_strncpy does) before refusing. */
+        dest[size - 1] = 0;
         return FALSE;
     } else {
         return spiftool_safe_strncpy(dest + len, src, size - len);
